@@ -209,7 +209,7 @@ public:
   //! how to do it after the move, unless it's guaranteed that the destination vector is default
   //! constructed.
   ASMJIT_INLINE_NODEBUG ArenaVector& operator=(ArenaVector&& other) noexcept {
-    _move_from(other);
+    _move_from(std::move(other));
     return *this;
   }
 
